@@ -96,7 +96,8 @@ def handleC02 (j : Json) : Except String Verdict := do
         if re != "ok" then
           return specfalse s!"seg:{cause}:{re}" s!"text {hex ht} under segment {rs} (value {val}) re-parses as {re} src={srcHex}"
         let reval ← getStr s "reval"
-        if reval != val then
+        -- a block string's value depends on the nesting depth it is read at (implicit indent), not on its range
+        if reval != val && kind != "bs" then
           return specfalse s!"seg:{cause}:value" s!"text {hex ht} under segment {rs}: value {val} re-parses to {reval} src={srcHex}"
     return match mm with
       | some (sig, d) => .mismatch sig d
